@@ -1,0 +1,11 @@
+//go:build verif
+
+package sweeper
+
+// Exports for the verification harness (/verif). Only compiled with the
+// build tag "verif".
+
+import "context"
+
+// VerifSweepOnce performs one full sweep pass.
+func (s *Sweeper) VerifSweepOnce(ctx context.Context) error { return s.sweep(ctx) }
